@@ -150,23 +150,23 @@ type Client struct {
 
 // World is one closed system: network, real server, scripted endpoints.
 type World struct {
-	Cfg      Config
-	Net      *simnet.Net
-	Srv      *turn.Server
-	SrvAddr  *net.UDPAddr
-	SrvSock  *simnet.UDPSock
-	Lst      *simnet.Listener
-	C        map[string]*Client
-	P        map[string]*Peer
-	CNames   []string
-	PNames   []string
-	Life     []string
-	lifeMu   sync.Mutex
-	GenCalls int
-	txc      uint32
-	tag      int
-	Relay4   net.IP
-	Relay6   net.IP
+	Cfg       Config
+	Net       *simnet.Net
+	Srv       *turn.Server
+	SrvAddr   *net.UDPAddr
+	SrvSock   *simnet.UDPSock
+	Lst       *simnet.Listener
+	C         map[string]*Client
+	P         map[string]*Peer
+	CNames    []string
+	PNames    []string
+	Life      []string
+	lifeMu    sync.Mutex
+	GenCalls  int
+	txc       uint32
+	tag       int
+	Relay4    net.IP
+	Relay6    net.IP
 	AuthCalls int
 	// GenFailNext makes the next n relay allocations fail; QuotaDeny makes the quota handler refuse.
 	GenFailNext int
@@ -194,10 +194,11 @@ var ClientSpec = map[string]struct {
 
 // PeerSpec describes the scripted peers.
 var PeerSpec = map[string]*net.UDPAddr{
-	"A":  {IP: net.IPv4(10, 1, 0, 1).To4(), Port: 5000},
-	"A2": {IP: net.IPv4(10, 1, 0, 1).To4(), Port: 5001},
-	"B":  {IP: net.IPv4(10, 1, 0, 2).To4(), Port: 5000},
-	"V6": {IP: net.ParseIP("fd00:1::1"), Port: 5000},
+	"A":   {IP: net.IPv4(10, 1, 0, 1).To4(), Port: 5000},
+	"A2":  {IP: net.IPv4(10, 1, 0, 1).To4(), Port: 5001},
+	"B":   {IP: net.IPv4(10, 1, 0, 2).To4(), Port: 5000},
+	"V6":  {IP: net.ParseIP("fd00:1::1"), Port: 5000},
+	"V6b": {IP: net.ParseIP("fd00:1::2"), Port: 5000},
 }
 
 type relayGen struct{ w *World }
